@@ -125,3 +125,274 @@ Proof.
       * rewrite Ek, Hm'. discriminate.
       * rewrite FM by exact Nk. apply (C2 r0 l0 H0).
 Qed.
+
+Lemma key_cnt_two k st r1 l1 r2 l2 :
+  awf st -> aget st r1 = Some l1 -> aget st r2 = Some l2 -> r1 <> r2 -> l_key l1 = k -> l_key l2 = k ->
+  (2 <= key_cnt k st)%nat.
+Proof.
+  intros W H1 H2 Hne K1 K2. rewrite key_cnt_eq. pose proof (asum_adel (kind k) st r1 W) as A. rewrite H1 in A.
+  cbn [oget] in A. assert (kind k l1 = 1%nat) by (unfold kind; rewrite K1, N.eqb_refl; reflexivity).
+  assert (G : aget (adel st r1) r2 = Some l2) by (rewrite aget_adel_other; auto).
+  pose proof (key_cnt_pos k _ r2 l2 G K2) as P. rewrite key_cnt_eq in P. lia.
+Qed.
+
+(* ------------------------------------------------------------------ the state part of the writer invariant *)
+Definition wrec (s : db) (l : lockrec) : Prop :=
+  c_flag (l_cmd l) = 0 /\ c_count (l_cmd l) = 0 /\ c_rcount (l_cmd l) = 0 /\ unit_seconds (c_eflag (l_cmd l))
+  /\ 0 < c_expried (l_cmd l) <= 65534
+  /\ (l_locked l = 1 -> (0 <= l_start l <= now s)%Z /\ l_eT l = (l_start l + Z.of_N (c_expried (l_cmd l)) + 1)%Z).
+
+Record WS (s : db) : Prop := mkWS {
+  ws_shape : Shape s;
+  ws_leader : leader s = true;
+  ws_tw : twheel s = [];
+  ws_tl : tlong s = [];
+  ws_check : (checkE s <= now s + 1)%Z;
+  ws_now : (0 <= now s)%Z;
+  ws_cnt : Cnt s;
+  ws_rec : forall r l, aget (store s) r = Some l -> wrec s l }.
+
+Lemma ws_ref_bound s k m : WS s -> aget (mgrs s) k = Some m -> m_ref m <= next s.
+Proof.
+  intros H Hm. destruct (ws_cnt _ H) as [C1 _]. pose proof (C1 k m Hm) as E.
+  pose proof (key_cnt_le k (store s)) as L.
+  pose proof (awf_length_bound (store s) (next s) (sh_awf _ (ws_shape _ H)) (sh_lt _ (ws_shape _ H))). lia.
+Qed.
+
+Lemma getm_ref_bound s k : WS s -> m_ref (getm s k) <= next s.
+Proof.
+  intros H. unfold getm. destruct (aget (mgrs s) k) as [m|] eqn:E; [apply (ws_ref_bound s k m H E)|cbn; lia].
+Qed.
+
+Lemma shape_ext2 s s' :
+  Shape s -> awf (store s') -> (forall r, aget (store s') r = aget (store s) r) ->
+  (forall k, aget (mgrs s') k = aget (mgrs s) k) -> next s <= next s' -> Shape s'.
+Proof.
+  intros H W Hs Hm Hn. split.
+  - exact W.
+  - intros r l Hr. rewrite Hs in Hr. pose proof (sh_lt _ H _ _ Hr). lia.
+  - intros r l Hr. rewrite Hs in Hr. pose proof (sh_rec _ H _ _ Hr) as X. unfold rec_shape in *. rewrite Hm. exact X.
+  - intros k m Hk. rewrite Hm in Hk. pose proof (sh_mgr _ H _ _ Hk) as X. unfold mgr_shape in *.
+    destruct (m_cur m); [|exact X]. rewrite Hs. exact X.
+Qed.
+
+Lemma wrec_now s s' l : now s' = now s -> wrec s l -> wrec s' l.
+Proof. intros E H. unfold wrec in *. rewrite E. exact H. Qed.
+
+Lemma ws_scalars s s' :
+  WS s -> same_scalars s s' -> Shape s' -> Cnt s' -> (forall r l, aget (store s') r = Some l -> wrec s l) -> WS s'.
+Proof.
+  intros H SS Hsh Hc Hr. split; auto.
+  - rewrite (ss_leader _ _ SS). apply (ws_leader _ H).
+  - rewrite (ss_twheel _ _ SS). apply (ws_tw _ H).
+  - rewrite (ss_tlong _ _ SS). apply (ws_tl _ H).
+  - rewrite (ss_checkE _ _ SS), (ss_now _ _ SS). apply (ws_check _ H).
+  - rewrite (ss_now _ _ SS). apply (ws_now _ H).
+  - intros r l H0. apply (wrec_now s s' l (ss_now _ _ SS)). apply (Hr r l H0).
+Qed.
+
+Lemma ws_ext s s' :
+  WS s -> awf (store s') -> (forall r, aget (store s') r = aget (store s) r) ->
+  (forall k, aget (mgrs s') k = aget (mgrs s) k) -> next s <= next s' -> same_scalars s s' -> WS s'.
+Proof.
+  intros H W Hs Hm Hn SS. apply (ws_scalars s s' H SS).
+  - apply (shape_ext2 s s' (ws_shape _ H)); auto.
+  - apply (cnt_ext s s'); auto. apply (sh_awf _ (ws_shape _ H)). apply (ws_cnt _ H).
+  - intros r l Hr. rewrite Hs in Hr. apply (ws_rec _ H r l Hr).
+Qed.
+
+(* record r keeps its core fields and its expried flag; managers unchanged *)
+Lemma shape_core s s' r k l l' :
+  Shape s -> eff s s' r k -> aget (store s) r = Some l -> aget (store s') r = Some l' ->
+  core_eq l l' -> l_expried l' = l_expried l -> aget (mgrs s') k = aget (mgrs s) k -> Shape s'.
+Proof.
+  intros H E Hr Hr' (K1 & K2 & K3 & K4 & K5 & K6 & K7 & K8) Hx Hmk.
+  assert (MM : forall k0, aget (mgrs s') k0 = aget (mgrs s) k0).
+  { intros k0. destruct (N.eq_dec k0 k) as [->|Hne]; [exact Hmk|apply (ef_m _ _ _ _ E); exact Hne]. }
+  split.
+  - apply (ef_awf _ _ _ _ E), (sh_awf _ H).
+  - intros r0 l0 H0. rewrite (ef_next _ _ _ _ E). destruct (N.eq_dec r0 r) as [->|Hne].
+    + apply (sh_lt _ H _ _ Hr).
+    + rewrite (ef_l _ _ _ _ E) in H0 by exact Hne. apply (sh_lt _ H _ _ H0).
+  - intros r0 l0 H0. destruct (N.eq_dec r0 r) as [->|Hne].
+    + rewrite Hr' in H0. injection H0 as <-. pose proof (sh_rec _ H _ _ Hr) as X. unfold rec_shape in *.
+      rewrite K1, K2, K3, K6, K7, Hx, MM. exact X.
+    + rewrite (ef_l _ _ _ _ E) in H0 by exact Hne. pose proof (sh_rec _ H _ _ H0) as X. unfold rec_shape in *.
+      rewrite MM. exact X.
+  - intros k0 m0 H0. rewrite MM in H0. pose proof (sh_mgr _ H _ _ H0) as X. unfold mgr_shape in *.
+    destruct (m_cur m0) as [rc|]; [|exact X]. destruct X as (X1 & X2 & X3 & X4 & lc & Hc & Hkc & Hlc). csplit; auto.
+    destruct (N.eq_dec rc r) as [->|Hne].
+    + rewrite Hr in Hc. injection Hc as <-. exists l'. csplit; auto; congruence.
+    + exists lc. csplit; auto. rewrite (ef_l _ _ _ _ E); auto.
+Qed.
+
+Lemma ws_core s s' r k l l' :
+  WS s -> eff s s' r k -> aget (store s) r = Some l -> aget (store s') r = Some l' ->
+  core_eq l l' -> l_expried l' = l_expried l -> aget (mgrs s') k = aget (mgrs s) k -> WS s'.
+Proof.
+  intros H E Hr Hr' C Hx Hmk. pose proof C as (K1 & K2 & K3 & K4 & K5 & K6 & K7 & K8).
+  apply (ws_scalars s s' H (ef_same _ _ _ _ E)).
+  - apply (shape_core s s' r k l l'); auto. apply (ws_shape _ H).
+  - apply (cnt_core s s' r k l l'); auto.
+    + apply (sh_awf _ (ws_shape _ H)). + apply (ws_cnt _ H).
+    + intros m Hm. exists m. rewrite Hmk. auto.
+    + intros m' Hm'. exists m'. rewrite <- Hmk. auto.
+  - intros r0 l0 H0. destruct (N.eq_dec r0 r) as [->|Hne].
+    + rewrite Hr' in H0. injection H0 as <-. pose proof (ws_rec _ H r l Hr) as X. unfold wrec in *.
+      rewrite K2, K4, K5, K6. exact X.
+    + rewrite (ef_l _ _ _ _ E) in H0 by exact Hne. apply (ws_rec _ H r0 l0 H0).
+Qed.
+
+Lemma ws_dropped s s' r k l m :
+  WS s -> next s < B32 -> aget (store s) r = Some l -> l_key l = k -> l_locked l = 0 -> aget (mgrs s) k = Some m ->
+  eff s s' r k -> dropped s' r k l m -> WS s'.
+Proof.
+  intros H Hb Hr Hk Hz Hm E D.
+  pose proof (ws_shape _ H) as Hsh. pose proof (sh_awf _ Hsh) as W. pose proof (ws_cnt _ H) as HC.
+  pose proof (ws_ref_bound s k m H Hm) as Rb.
+  assert (Rm : N.to_nat (m_ref m) = key_cnt k (store s)) by (apply (proj1 HC); exact Hm).
+  apply (ws_scalars s s' H (ef_same _ _ _ _ E)).
+  - apply (shape_dropped s s' r k l m); auto.
+    intros Z. destruct (m_cur m) as [rc|] eqn:Ec; [|reflexivity]. exfalso.
+    destruct (sh_mgr _ Hsh _ _ Hm) as (_ & _ & _ & B4). rewrite Ec in B4. destruct B4 as (_ & lc & Hc & Hkc & Hlc).
+    assert (rc <> r) by (intros ->; rewrite Hr in Hc; injection Hc as <-; lia).
+    pose proof (key_cnt_two k _ rc lc r l W Hc Hr H0 Hkc Hk).
+    assert (1 <= m_ref m) by lia. rewrite dec32_pos in Z by lia. lia.
+  - apply (cnt_dropped s s' r k l m m); auto; [lia|].
+    destruct D as [(l' & R' & D' & M')|D]; [left|right; exact D].
+    exists l'. csplit; auto. destruct D' as (_ & _ & D3 & _). congruence.
+  - intros r0 l0 H0. destruct (N.eq_dec r0 r) as [->|Hne].
+    + destruct D as [(l' & R' & D' & M')|(R' & _)]; [|congruence]. rewrite R' in H0. injection H0 as <-.
+      destruct D' as (D1 & D2 & D3 & D4 & D5 & D6 & D7 & D8). pose proof (ws_rec _ H r l Hr) as X. unfold wrec in *.
+      rewrite D4. destruct X as (X1 & X2 & X3 & X4 & (X5 & X6) & _). csplit; auto; intros; lia.
+    + rewrite (ef_l _ _ _ _ E) in H0 by exact Hne. apply (ws_rec _ H r0 l0 H0).
+Qed.
+
+Lemma ws_released s s' r k l m :
+  WS s -> next s < B32 -> aget (store s) r = Some l -> l_key l = k -> l_locked l = 1 -> aget (mgrs s) k = Some m ->
+  released s s' r k l m -> WS s'.
+Proof.
+  intros H Hb Hr Hk Hl Hm REL. pose proof REL as (E & l1 & m1 & D1 & MR & D).
+  pose proof (ws_shape _ H) as Hsh. pose proof (sh_awf _ Hsh) as W. pose proof (ws_cnt _ H) as HC.
+  pose proof (ws_ref_bound s k m H Hm) as Rb.
+  destruct D1 as (E1 & E2 & E3 & E4 & E5 & E6 & E7 & E8). cbn [l_key l_cmd l_data l_expried l_start l_eT set] in *.
+  apply (ws_scalars s s' H (ef_same _ _ _ _ E)).
+  - apply (shape_released s s' r k l m); auto.
+  - apply (cnt_dropped s s' r k l m m1); auto; [apply MR|lia|].
+    destruct D as [(l' & R' & D' & M')|D]; [left|right; exact D].
+    exists l'. csplit; auto. destruct D' as (_ & _ & D3 & _). congruence.
+  - intros r0 l0 H0. destruct (N.eq_dec r0 r) as [->|Hne].
+    + destruct D as [(l' & R' & D' & M')|(R' & _)]; [|congruence]. rewrite R' in H0. injection H0 as <-.
+      destruct D' as (D1 & D2 & D3 & D4 & D5 & D6 & D7 & D8). pose proof (ws_rec _ H r l Hr) as X. unfold wrec in *.
+      rewrite D4, E4. destruct X as (X1 & X2 & X3 & X4 & (X5 & X6) & _). csplit; auto; intros; lia.
+    + rewrite (ef_l _ _ _ _ E) in H0 by exact Hne. apply (ws_rec _ H r0 l0 H0).
+Qed.
+
+Lemma expiry_deadline_seconds c t : unit_seconds (c_eflag c) -> expiry_deadline c t = (t + Z.of_N (c_expried c) + 1)%Z.
+Proof. intros (U1 & U2 & U3). unfold expiry_deadline. rewrite U1, U2, U3. reflexivity. Qed.
+
+Lemma ws_grant s s' c l' m' :
+  WS s -> next s + 1 < B32 -> lock_simple c -> key_free s (c_key c) ->
+  c_flag c = 0 -> c_count c = 0 -> c_rcount c = 0 -> unit_seconds (c_eflag c) -> 0 < c_expried c <= 65534 ->
+  aget (store s') (next s) = Some l' ->
+  l_key l' = c_key c -> l_cmd l' = c -> l_data l' = None -> l_start l' = now s ->
+  l_eT l' = expiry_deadline c (now s) -> l_locked l' = 1 -> l_ack l' = 255 -> l_expried l' = false ->
+  (forall r', r' <> next s -> aget (store s') r' = aget (store s) r') ->
+  (forall k', k' <> c_key c -> aget (mgrs s') k' = aget (mgrs s) k') ->
+  (awf (store s) -> awf (store s')) -> same_scalars s s' -> next s' = next s + 1 ->
+  aget (mgrs s') (c_key c) = Some m' -> m_cur m' = Some (next s) -> m_locked m' = 1 ->
+  m_locks m' = m_locks (getm s (c_key c)) -> m_waited m' = false -> m_data m' = None ->
+  m_ref m' = add32 (m_ref (getm s (c_key c))) 1 ->
+  WS s'.
+Proof.
+  intros H Hb Hs Hkf F1 F2 F3 F4 F5 R L1 L2 L3 L4 L5 L6 L7 L8 FR FM W SS NX M M1 M2 M3 M5 M6 M7.
+  pose proof (ws_shape _ H) as Hsh.
+  apply (ws_scalars s s' H SS).
+  - apply (shape_grant s s' c l' m'); auto.
+  - apply (cnt_grant s s' (c_key c) l' m'); auto.
+    + apply (sh_awf _ Hsh). + apply W, (sh_awf _ Hsh). + apply (ws_cnt _ H). + apply (shape_fresh s Hsh).
+    + pose proof (getm_ref_bound s (c_key c) H). lia.
+  - intros r0 l0 H0. destruct (N.eq_dec r0 (next s)) as [->|Hne].
+    + rewrite R in H0. injection H0 as <-. unfold wrec. rewrite L2, L4, L5, (expiry_deadline_seconds c _ F4).
+      pose proof (ws_now _ H). csplit; auto; try lia.
+    + rewrite FR in H0 by exact Hne. apply (ws_rec _ H r0 l0 H0).
+Qed.
+
+(* ------------------------------------------------------------------ the ledger part *)
+Definition rec_matches (e : aofrec) (l : lockrec) : Prop :=
+  exists ct, e = lock_rec_of l ct None /\ (l_start l <= ct < l_eT l)%Z.
+
+Definition pheld (s : db) (r : ref) (l : lockrec) : Prop :=
+  aget (store s) r = Some l /\ l_locked l = 1 /\ l_isaof l = true.
+
+Record WL (s : db) (L : ledger) : Prop := mkWL {
+  wl_a : forall k e, aget L k = Some e -> exists r l, pheld s r l /\ l_key l = k /\ rec_matches e l;
+  wl_b : forall r l, pheld s r l -> aget L (l_key l) <> None }.
+
+Lemma rec_matches_core e l l' : core_eq l l' -> rec_matches e l -> rec_matches e l'.
+Proof.
+  intros C (ct & -> & Hct). exists ct. split; [symmetry; apply lock_rec_of_core; exact C|].
+  destruct C as (K1 & K2 & K3 & K4 & K5 & _). rewrite K4, K5. exact Hct.
+Qed.
+
+(* the persisted holds and their matching records are carried over unchanged *)
+Lemma wl_frame s s' L :
+  WL s L ->
+  (forall r l, pheld s r l -> exists l', pheld s' r l' /\ l_key l' = l_key l /\ forall e, rec_matches e l -> rec_matches e l') ->
+  (forall r l', pheld s' r l' -> exists l, pheld s r l /\ l_key l = l_key l') ->
+  WL s' L.
+Proof.
+  intros [A B] F G. split.
+  - intros k e He. destruct (A k e He) as (r & l & P & Hk & Hm). destruct (F r l P) as (l' & P' & Hk' & Hm').
+    exists r, l'. csplit; auto. congruence.
+  - intros r l' P'. destruct (G r l' P') as (l & P & Hk). rewrite <- Hk. apply (B r l P).
+Qed.
+
+(* hold r of key k becomes persisted with LOCK record e *)
+Lemma wl_add s s' L r l' e :
+  WL s L -> pheld s' r l' -> rec_matches e l' -> a_key e = l_key l' -> a_lock e = true ->
+  (forall r0 l0, r0 <> r -> pheld s r0 l0 -> exists l0', pheld s' r0 l0' /\ l_key l0' = l_key l0 /\ forall e, rec_matches e l0 -> rec_matches e l0') ->
+  (forall r0 l0', r0 <> r -> pheld s' r0 l0' -> exists l0, pheld s r0 l0 /\ l_key l0 = l_key l0') ->
+  (forall l, ~ pheld s r l) ->
+  WL s' (lstep L e).
+Proof.
+  intros [A B] P' Hm Hk Hlk F G Hnot. unfold lstep. rewrite Hlk, Hk. split.
+  - intros k e0. rewrite aget_aset. destruct (l_key l' =? k) eqn:E.
+    + apply N.eqb_eq in E. intros Q. injection Q as <-. exists r, l'. auto.
+    + intros He. destruct (A k e0 He) as (r0 & l0 & P0 & Hk0 & Hm0).
+      assert (r0 <> r) by (intros ->; apply (Hnot l0 P0)).
+      destruct (F r0 l0 H P0) as (l0' & P0' & Hk0' & Hm0'). exists r0, l0'. csplit; auto. congruence.
+  - intros r0 l0' P0'. rewrite aget_aset. destruct (l_key l' =? l_key l0') eqn:E; [discriminate|].
+    destruct (N.eq_dec r0 r) as [->|Hne].
+    + destruct P' as (R1 & _). destruct P0' as (R2 & _). rewrite R1 in R2. injection R2 as <-. rewrite N.eqb_refl in E. discriminate.
+    + destruct (G r0 l0' Hne P0') as (l0 & P0 & Hk0). rewrite <- Hk0. apply (B r0 l0 P0).
+Qed.
+
+(* persisted hold r of key k is released with UNLOCK record u *)
+Lemma wl_del s s' L r l u :
+  WL s L -> pheld s r l -> a_lock u = false -> a_key u = l_key l -> a_lockid u = c_lockid (l_cmd l) ->
+  (forall r0 l0, r0 <> r -> pheld s r0 l0 -> l_key l0 <> l_key l) ->
+  (forall r0 l0, r0 <> r -> pheld s r0 l0 -> exists l0', pheld s' r0 l0' /\ l_key l0' = l_key l0 /\ forall e, rec_matches e l0 -> rec_matches e l0') ->
+  (forall r0 l0', pheld s' r0 l0' -> r0 <> r /\ exists l0, pheld s r0 l0 /\ l_key l0 = l_key l0') ->
+  WL s' (lstep L u).
+Proof.
+  intros [A B] P Hlk Hk Hid Huniq F G.
+  assert (HL : exists e, aget L (l_key l) = Some e /\ a_lockid e = a_lockid u).
+  { destruct (aget L (l_key l)) as [e|] eqn:Ee; [|exfalso; apply (B r l P Ee)].
+    exists e. split; [reflexivity|]. destruct (A _ _ Ee) as (r1 & l1 & P1 & Hk1 & (ct & -> & _)).
+    assert (r1 = r). { destruct (N.eq_dec r1 r) as [|Hne]; auto. exfalso. apply (Huniq r1 l1 Hne P1 Hk1). }
+    subst r1. destruct P as (R1 & _). destruct P1 as (R2 & _). rewrite R1 in R2. injection R2 as <-.
+    unfold lock_rec_of. cbn [a_lockid]. congruence. }
+  destruct HL as (e & He & Hide).
+  unfold lstep. rewrite Hlk, Hk, He. apply N.eqb_eq in Hide. rewrite Hide. split.
+  - intros k e0. rewrite aget_adel. destruct (l_key l =? k) eqn:E; [discriminate|]. intros He0.
+    destruct (A k e0 He0) as (r0 & l0 & P0 & Hk0 & Hm0).
+    assert (r0 <> r).
+    { intros ->. destruct P as (R1 & _). destruct P0 as (R2 & _). rewrite R1 in R2. injection R2 as <-.
+      apply N.eqb_neq in E. congruence. }
+    destruct (F r0 l0 H P0) as (l0' & P0' & Hk0' & Hm0'). exists r0, l0'. csplit; auto. congruence.
+  - intros r0 l0' P0'. destruct (G r0 l0' P0') as (Hne & l0 & P0 & Hk0).
+    rewrite aget_adel. destruct (l_key l =? l_key l0') eqn:E.
+    + exfalso. apply N.eqb_eq in E. apply (Huniq r0 l0 Hne P0). congruence.
+    + rewrite <- Hk0. apply (B r0 l0 P0).
+Qed.
